@@ -4,7 +4,7 @@
 EXTENDS Samplers, TLC, Json, IOUtils, SequencesExt
 CONSTANTS Deep
 Leaf(kind, v, n, dom) == [k |-> "leaf", kind |-> kind, v |-> v, n |-> n, dom |-> dom]
-XL == {Leaf(kd, "x", n, "fix") : kd \in {"random", "grid", "gauss", "lhs", "expint", "filtered", "narrow", "data"}, n \in 1..3}
+XL == {Leaf(kd, "x", n, "fix") : kd \in {"random", "grid", "gridflt", "gauss", "lhs", "expint", "filtered", "narrow", "data"}, n \in 1..3}
       \cup {Leaf(kd, "x", n, "mov") : kd \in {"random", "grid", "filtered", "narrow"}, n \in 1..3}
 YL == {Leaf(kd, "y", n, "fix") : kd \in {"random", "grid", "data"}, n \in 1..2}
 TL == {Leaf("data", "t", n, "fix") : n \in 1..3}
